@@ -1965,7 +1965,12 @@ class Wtp:
         if page is None:
             return None
         if page.redirect_to is not None:
-            return self.get_page(page.redirect_to, namespace_id, True)
+            # The target may be in another namespace than the redirect; its
+            # own prefix then tells which (no prefix: look it up as before)
+            target_ns_id = self.namespace_id_of_title(page.redirect_to)
+            if target_ns_id is None:
+                target_ns_id = namespace_id
+            return self.get_page(page.redirect_to, target_ns_id, True)
         return page
 
     def get_page_body(
@@ -2083,6 +2088,23 @@ class Wtp:
             post_template_fn=post_template_fn,
             node_handler_fn=node_handler_fn,
         )
+
+    def namespace_id_of_title(self, title: str) -> Optional[int]:
+        """Returns the id of the non-main namespace whose prefix (local or
+        canonical name or an alias, in any case) the title starts with,
+        or None if the title has no such prefix."""
+        ofs = title.find(":")
+        if ofs <= 0:
+            return None
+        prefix = title[:ofs].replace("_", " ").lower()
+        for ns, ns_data in self.NAMESPACE_DATA.items():
+            if ns_data["id"] > 0 and (
+                prefix == ns.lower()
+                or prefix == ns_data["name"].lower()
+                or prefix in (a.lower() for a in ns_data["aliases"])
+            ):
+                return ns_data["id"]
+        return None
 
     def namespace_prefixes(
         self, ns_id: int, lower: bool = True, suffix: str = ":"
